@@ -1,5 +1,5 @@
 (* C15 instance: the table generated from types.rs / types/acls.rs passes the computable check. *)
-From TI Require Import Bytes Grammar Interp Owned OwnedProofs Natives OwnedRun.
+From TI Require Import Bytes Grammar Interp Owned OwnedProofs Natives OwnedRun Proofs_Wf.
 From TI.gen Require Import Tables PanicSites.
 
 Lemma table_ok_gen : table_ok gen_into_owned gen_own_helpers = true.
@@ -27,6 +27,14 @@ Lemma owned_parse_identity : forall i rest v used,
 Proof.
   intros i rest v used Hp Hw. unfold owned_parse. rewrite Hp. cbn [fst]. f_equal.
   unfold into_owned. apply into_owned_identity_gen. exact Hw.
+Qed.
+
+(* ... and every parsed value is well-formed (Thm_Wf / Proofs_Wf), so for parsed values there is no side condition *)
+Lemma owned_parse_identity_all : forall i rest v used,
+  parse i = ROk rest v used -> owned_parse i = (ROk rest v used, true).
+Proof.
+  intros i rest v used Hp. pose proof (parse_wf i rest v used Hp) as Hw.
+  unfold owned_parse. rewrite Hp, Hw. f_equal. f_equal. unfold into_owned. apply into_owned_identity_gen. exact Hw.
 Qed.
 
 (* non-vacuity: a parsed FETCH with an envelope and a body structure is well-formed and has rows at several levels *)
